@@ -157,6 +157,15 @@ def check(case):
                 if g.line(name) is None:
                     return
                 g.line(name).get(field); g.line(name).try_get(field)
+            elif op == "group-edit":
+                name, method, item, connected = arg
+                l = g.line(name)
+                if l is None or l.record_type not in "OU" or not hasattr(l, method):
+                    return
+                if not connected:
+                    l = l.clone()
+                getattr(l, method)(*([item] if item is not None else []))
+                str(l); str(g); g.validate()
             elif op == "field-queries":
                 name, field = arg
                 l = g.line(name)
@@ -296,6 +305,15 @@ def cases(tier, seed):
                     for target in ("A", "p1", "e1", "o1", "u1", "g1", "lk"):
                         for then in ("rename", "disconnect", "rm", "set"):
                             out.append(("api", version, ids, "refused-then", (target, n, then), vlevel))
+                if version == "gfa2":
+                    for grp, methods in (("u1", ("add_item", "rm_item")), ("o1", ("append_item", "prepend_item"))):
+                        for method in methods:
+                            for n in names + ["A-", "B+", "e1+", "o1+", "u1+", "+", "-", "A +", "A+ B+"]:
+                                for connected in (True, False):
+                                    out.append(("api", version, ids, "group-edit", (grp, method, n, connected), vlevel))
+                    for connected in (True, False):
+                        for method in ("rm_first_item", "rm_last_item"):
+                            out.append(("api", version, ids, "group-edit", ("o1", method, None, connected), vlevel))
                 combos = [(n, f, v) for n in ("A", "B", "p1", "e1", "g1", "u1", "o1", "lk") for f in fields for v in values]
                 for (n, f, v) in (combos if tier != "quick" else rng.sample(combos, 300)):
                     out.append(("api", version, ids, "set", (n, f, v), vlevel))
@@ -311,7 +329,7 @@ if __name__ == "__main__":
     cs = cases(tier, seed)
     res = harness.run(cs, check,
                       rule="(a) every string of length <=%d over %r as a line (Line(), add_line on an empty Gfa, write, validate, read of every field) at a seeded vlevel/version; "
-                           "(b) every catalogue line's closed document at vlevel 0-3 and its single-point mutations; (c) strings handed to line/segment/rm/rename/set/get/get_datatype/validate_field/field_to_s/delete on catalogue Gfas; (d) strings handed to the constructors and parsers of the value classes (OrientedLine, SegmentEnd, Alignment, LastPos, ByteArray, NumericArray, CIGAR, Trace). "
+                           "(b) every catalogue line's closed document at vlevel 0-3 and its single-point mutations; (c) strings handed to line/segment/rm/rename/set/get/get_datatype/validate_field/field_to_s/delete and to the group editing methods (add_item, rm_item, append_item, prepend_item, on connected and unconnected groups) on catalogue Gfas; (d) strings handed to the constructors and parsers of the value classes (OrientedLine, SegmentEnd, Alignment, LastPos, ByteArray, NumericArray, CIGAR, Trace). "
                            "A failure is any exception that is not a gfapy.Error. distinct = distinct input" % (3 if tier == "quick" else 4, ALPHABET),
                       bound="line strings of length <=%d exhaustively; mutations and API strings sampled with VERIF_SEED" % (3 if tier == "quick" else 4), exhaustive=False)
     harness.emit(res)
